@@ -73,8 +73,8 @@ type scriptClient struct {
 	autoNext   bool
 	calls      [][]*call // per attempt
 	stalled    chan struct{}
-	putDone    chan string
-	active     int // feeding goroutines alive
+	rec        *recorder // the raw store's recorder (nil: no view on the store)
+	active     int       // feeding goroutines alive
 	extraCalls int
 	noRecorder bool
 	upTo       uint64
@@ -115,7 +115,7 @@ func (c *scriptClient) idle() bool {
 
 func newScriptClient(w *world, attempts [][]*peerSpec, autoNext bool) *scriptClient {
 	return &scriptClient{w: w, attempts: attempts, autoNext: autoNext,
-		calls: make([][]*call, len(attempts)), stalled: make(chan struct{}, 64), putDone: make(chan string, 1024),
+		calls: make([][]*call, len(attempts)), stalled: make(chan struct{}, 64),
 		foreign: "another-beacon"}
 }
 
@@ -213,6 +213,13 @@ func (c *scriptClient) SyncChain(ctx context.Context, p net.Peer, in *drand.Sync
 }
 
 func (c *scriptClient) feed(ctx context.Context, ch chan *drand.BeaconPacket, stream []elem) {
+	// every Put made from now on belongs to this stream (tryNode handles one peer at a time and has
+	// not received anything yet); sent counts the packets handed over, by beacon
+	start := 0
+	if c.rec != nil {
+		start = c.rec.count()
+	}
+	sent := map[string]int{}
 	for i, e := range stream {
 		switch e.kind {
 		case eClose:
@@ -225,22 +232,18 @@ func (c *scriptClient) feed(ctx context.Context, ch chan *drand.BeaconPacket, st
 				// wait for the verdict on the last packet: refused => tryNode returns (ctx done);
 				// stored => its Put is reported by the recorder
 				want := putKey(stream[i-1].b)
-				deadline := time.After(hangTimeout)
-				if c.noRecorder {
+				deadline := time.Now().Add(hangTimeout)
+				if c.noRecorder || c.rec == nil {
 					// no view on the store (StartFollowChain builds its own): give the packet time
-					deadline = time.After(150 * time.Millisecond)
+					deadline = time.Now().Add(150 * time.Millisecond)
 				}
-			wait:
-				for {
+				// every earlier packet of this stream was stored (a refusal ends tryNode): the last one
+				// is stored once the store has seen that beacon as often as it was handed over
+				for !(c.rec != nil && c.rec.putsSince(start, want) >= sent[want]) && time.Now().Before(deadline) {
 					select {
 					case <-ctx.Done():
 						return
-					case k := <-c.putDone:
-						if k == want {
-							break wait
-						}
-					case <-deadline:
-						break wait
+					case <-time.After(200 * time.Microsecond):
 					}
 				}
 				// stored. tryNode returns exactly when that round was the target; otherwise it is back
@@ -274,6 +277,7 @@ func (c *scriptClient) feed(ctx context.Context, ch chan *drand.BeaconPacket, st
 			case <-ctx.Done():
 				return
 			}
+			sent[putKey(e.b)]++
 			// StartFollowChain returns as soon as a stored round >= the target closes `done`, and
 			// cancels the Sync still running asynchronously: leave it the time to do so before the
 			// next packet is offered (every later cut is accepted by the correspondence anyway)
